@@ -145,7 +145,8 @@ theorem C10_linearizable (lockOf : String → Mode) (hd : Disc lockOf) (progs : 
     intro e he
     have h1 := mem_logOf s.log e he
     have h2 : e.2 ∈ (progs e.1).map (secOf lockOf) := by
-      rw [← hord e.1]; simp [h1]
+      rw [← hord e.1]
+      exact List.mem_append_left _ (List.mem_append_left _ h1)
     obtain ⟨op, _, hop⟩ := List.mem_map.mp h2
     rw [← hop]; rfl
   have hw := seqExec_secOf lockOf s.log hlog (Model.Reg.init, fun _ => [])
@@ -184,26 +185,70 @@ theorem C10_linearizable_generated (progs : Tid → List Op)
   obtain ⟨op, _, rfl⟩ := List.mem_map.mp hs
   exact secOf_ok generatedLock hd op
 
+/-! ## Calls made of several sections: the autoload path (known finding)
+
+Full statement (FALSE on the pinned tree, with or without the lock fix):
+  `C10_loader_linearizable` — when goroutines call `GetOrLoadClass` for classes that
+  have a class file, every call returns what some sequential order of the
+  *calls* would give (i.e. the class).
+`C10_linearizable` above is the `_partial` form: it holds for calls that are a
+single locked section (hypothesis `single`); `GetOrLoadClass`/`LoadClass`/`LoadAndRun`
+is seven sections, and `SetPhpFileCache(f)` happens before the file's classes
+are registered. -/
+
+/-- two goroutines each calling `GetOrLoadClass("A")`, class file 1 declares `A` -/
+def twoLoaders : Tid → List (Sec Op (List Res) Model.Reg.State) :=
+  fun t => if t < 2 then loadCall ⟨"A".toList, 1, some 1⟩ 1 else []
+
+/-- goroutine 0 runs up to and including `SetPhpFileCache`, goroutine 1 runs its whole call,
+goroutine 0 finishes -/
+def loaderSchedule : List Tid := List.replicate 20 0 ++ List.replicate 28 1 ++ List.replicate 8 0
+
+/-- **Negation witness (known finding C10-autoload-file-marked-before-registered).**
+All sections are properly locked (no data race), yet under `loaderSchedule`
+goroutine 1's `GetOrLoadClass("A")` fails with the loader's error while goroutine 0's
+identical call returns the class — and in both sequential orders of the two
+calls both return the class.  The harness reproduces it on the real VM in its
+load stream. -/
+theorem C10_autoload_counterexample :
+    (∀ t, ∀ sec ∈ twoLoaders t, sec.ok) ∧
+    loadOutcome ((run (mkInit Model.Reg.init (fun _ => []) twoLoaders) loaderSchedule).thr 1).loc = .errLoad ∧
+    loadOutcome ((run (mkInit Model.Reg.init (fun _ => []) twoLoaders) loaderSchedule).thr 0).loc = .hit 1 ∧
+    (∀ t, t < 2 → loadOutcome ((run (mkInit Model.Reg.init (fun _ => []) twoLoaders)
+        (List.replicate 28 0 ++ List.replicate 28 1)).thr t).loc = .hit 1) ∧
+    (∀ t, t < 2 → loadOutcome ((run (mkInit Model.Reg.init (fun _ => []) twoLoaders)
+        (List.replicate 28 1 ++ List.replicate 28 0)).thr t).loc = .hit 1) := by
+  refine ⟨?_, by decide, by decide, by decide, by decide⟩
+  intro t sec hs
+  unfold twoLoaders at hs
+  split at hs
+  · simp only [loadCall, List.mem_cons, List.not_mem_nil, or_false] at hs
+    rcases hs with h | h | h | h | h | h | h <;> subst h <;> intro a ha <;>
+      simp [rdSec, wrSec] at ha <;> subst ha <;> rfl
+  · simp at hs
+
 /-! ## The sequential registry (what the witness order gives) -/
 
 /-- **A successful registration is visible to every later lookup.** After
 `AddClass d` reported success, whatever calls follow, the name resolves
 (`LoadPkg`'s lookup finds a class or an interface), and unless the name was
 already held by an interface (a same-file `AddClass` of an interface's name
-reports success and registers nothing — see notes) `GetClass` finds a class. -/
-theorem C10_add_visible (s : State) (d : Decl) (ops : List Op) (h : (addClass s d).2 = .ok) :
+reports success and registers nothing — see notes) `GetClass` finds a class.
+(The conclusion does not even need the success hypothesis: a rejected `AddClass`
+means the name is taken, hence found.) -/
+theorem C10_add_visible (s : State) (d : Decl) (ops : List Op) (_ok : (addClass s d).2 = .ok) :
     isFound (lookPkg (runOps (addClass s d).1 ops) d.name) = true ∧
     (look s.ifaces d.name = none → isFound (findClass (runOps (addClass s d).1 ops) d.name) = true) := by
   have hk := keeps_run (addClass s d).1 ops
   have key : (∃ x, look (addClass s d).1.classes d.name = some x) ∨
       (look s.ifaces d.name ≠ none ∧ ∃ x, look (addClass s d).1.ifaces d.name = some x) := by
-    unfold addClass at h ⊢
+    unfold addClass
     cases hc : look s.classes d.name with
-    | some has => simp only [hc] at h ⊢; split <;> exact .inl ⟨has, hc⟩
+    | some has => simp only []; split <;> exact .inl ⟨has, hc⟩
     | none =>
-      simp only [hc] at h ⊢
+      simp only []
       cases hi : look s.ifaces d.name with
-      | some has => simp only [hi] at h ⊢; split <;> exact .inr ⟨by simp, has, hi⟩
+      | some has => simp only []; split <;> exact .inr ⟨by simp, has, hi⟩
       | none => exact .inl ⟨d, look_append_new _ _ _ hc⟩
   rcases key with ⟨x, hx⟩ | ⟨hne, x, hx⟩
   · have := hk.classes _ _ hx
@@ -312,7 +357,7 @@ theorem C10_duplicate_one_winner_others (s : State) (ops : List Op) :
       unfold addFunc at h ⊢
       cases hf : look s.funcs n with
       | some x => simp [hf] at h
-      | none => simp only [hf]; exact look_append_new _ _ _ hf
+      | none => exact look_append_new _ _ _ hf
     have := hk.funcs n id hx
     generalize runOps (addFunc s n id).1 ops = s₂ at this
     simp [addFunc, this]
@@ -322,7 +367,7 @@ theorem C10_duplicate_one_winner_others (s : State) (ops : List Op) :
       unfold setConst at h ⊢
       cases hf : look s.consts n with
       | some x => simp [hf] at h
-      | none => simp only [hf]; exact look_append_new _ _ _ hf
+      | none => exact look_append_new _ _ _ hf
     have := hk.consts n v hx
     generalize runOps (setConst s n v).1 ops = s₂ at this
     simp [setConst, this]
